@@ -4,7 +4,7 @@
    compression aggregators (weighted mean = the translated tree_mean of
    gen/Gen_tree_util.v); PRNG keys as paths of split indices; bit counters as
    (base, a, b) = a * log2 base + b (translated, gen/Gen_compression.v). *)
-From Coq Require Import ZArith QArith Qabs Qround Qminmax List Bool.
+From Coq Require Import ZArith QArith Qcanon Qabs Qround Qminmax List Bool.
 From FV Require Import Common.ListX Common.CMonoid Common.NanQ Common.NanVec Common.KeyPath Common.RingVec
   gen.Gen_tree_util gen.Gen_compression gen.Gen_walsh_hadamard Model.C18_Model.
 Import ListNotations.
@@ -57,19 +57,23 @@ Definition qsqrt_exact (z : Z) : option Q :=
   let r := Z.sqrt z in if (r * r =? z)%Z && (0 <? z)%Z then Some (inject_Z r) else None.
 Definition all_some {A} (l : list (option A)) : option (list A) :=
   fold_right (fun a acc => match a, acc with Some x, Some r => Some (x :: r) | _, _ => None end) (Some []) l.
-(* (the ring operations are followed by Qred only to keep the fractions small when evaluating) *)
-Definition radd (a b : Q) : Q := Qred (a + b).
-Definition rsub (a b : Q) : Q := Qred (a - b).
-Definition qrot (s : list bool) (x : list Q) : option (list Q) :=
-  match rot 0 radd rsub Qopp s x with
-  | WOk (u, z) => match qsqrt_exact z with Some r => Some (map (fun a => Qred (a / r)) u) | None => None end
+(* The rotation is evaluated over Qc (canonical rationals: a commutative ring with LEIBNIZ equality, so
+   the C18 theorems apply verbatim; every operation reduces its result, which also keeps the fractions small). *)
+Definition q2c (l : list Q) : list Qc := map Q2Qc l.
+Definition c2q (l : list Qc) : list Q := map this l.
+Definition cscale (r : Q) (l : list Qc) : list Qc := map (fun a => Qcmult (Qcinv (Q2Qc r)) a) l.
+Definition crot (s : list bool) (x : list Qc) : option (list Qc) :=
+  match rot (Q2Qc 0) Qcplus Qcminus Qcopp s x with
+  | WOk (u, z) => match qsqrt_exact z with Some r => Some (cscale r u) | None => None end
   | _ => None
   end.
-Definition qinv (s : list bool) (y : list Q) (size : Z) : option (list Q) :=
-  match inv_rot 0 radd rsub Qopp s y [size] with
-  | WOk (w, z, _) => match qsqrt_exact z with Some r => Some (map (fun a => Qred (a / r)) w) | None => None end
+Definition cinv (s : list bool) (y : list Qc) (size : Z) : option (list Qc) :=
+  match inv_rot (Q2Qc 0) Qcplus Qcminus Qcopp s y [size] with
+  | WOk (w, z, _) => match qsqrt_exact z with Some r => Some (cscale r w) | None => None end
   | _ => None
   end.
+Definition qrot (s : list bool) (x : list Q) : option (list Q) := option_map c2q (crot s (q2c x)).
+Definition qinv (s : list bool) (y : list Q) (size : Z) : option (list Q) := option_map c2q (cinv s (q2c y) size).
 
 (* ---- aggregators: weighted mean (translated tree_mean) of the per-client quantised trees ---- *)
 Definition tree := list (list nq).     (* leaves *)
